@@ -771,6 +771,16 @@ class NP:
             return t.map(lambda x: V.to_real(x) if is_sym(x) else float(x), dtype='real')
         raise Unsupported(f'astype({dtype})')
 
+    def f_tile(self, interp, line, a, reps):
+        a = as_tensor(a)
+        reps = tuple(int(r) for r in (reps if isinstance(reps, (tuple, list, np.ndarray)) else (reps,)))
+        if len(reps) != a.ndim:
+            raise Unsupported('tile with rank change')
+        interp.ctx.use('numpy.tile: out[i] = a[i mod shape]')
+        shape = tuple(binop('*', d, r) for d, r in zip(a.shape, reps))
+        af, sh = a.fn, a.shape
+        return STensor(shape, lambda *i: af(*[x if r == 1 else binop('%', x, d) for x, d, r in zip(i, sh, reps)]), a.dtype)
+
     def f_fliplr(self, interp, line, a):
         a = as_tensor(a)
         n = a.shape[1]
